@@ -1026,8 +1026,18 @@ func init() {
 			Conc:  []pact{{Op: "opensync", R: 1, T: "k1", K: "soc"}, {Op: "inc", R: 0, P: 1, T: "k1|"}},
 			AtEnd: []string{"quiescent", "log", "converge", "reference"}, NoClose: true}
 		_ = rtJoin
+		// a realtime client issues two operations in a row and then runs a transaction that fails and is rolled back:
+		// whatever is under way when the transaction is open, both operations reach the other client without any Sync()
+		rtAbort := func(pol *spolicy) e2sched {
+			return e2sched{E2: e2p{Clients: 2, Type: "counter", Prefix: "joined", SyncType: "realtime", Tolerant: true},
+				Conc:   []pact{{Op: "seq", R: 0, Sub: []pact{{Op: "inc", R: 0, P: 1, T: "k1|"}, {Op: "inc", R: 0, P: 1, T: "k1|"}, {Op: "txabort", R: 0, T: "k1|"}}}},
+				Policy: pol,
+				AtEnd:  []string{"announced", "quiescent", "log", "converge", "reference"}, NoClose: true}
+		}
 		if tier == "quick" {
 			p.Runs = append(p.Runs, schedRun("realtime-join-next-to-an-operation-b2", 2, rtJoin, 0))
+			p.Runs = append(p.Runs, schedRun("realtime-aborted-transaction-next-to-deliveries-b2", 2, rtAbort(nil), 0),
+				schedRun("realtime-aborted-transaction-next-to-deliveries-eager-b2", 2, rtAbort(&spolicy{EagerSpawn: true, FastNotify: true}), 0))
 			p.Runs = append(p.Runs, schedRun("realtime-sync-call-next-to-an-operation-b2", 2, rtSync, 0))
 			p.Runs = append(p.Runs, schedRun("realtime-two-datatypes-one-client-b1", 1, rt2k, 0), schedRun("realtime-key-with-slash-b1", 1, rtSlash, 0))
 			p.Runs = append(p.Runs, schedRun("realtime-counter-2ops-listener-b2", 2, rt2("counter"), 0))
@@ -1037,6 +1047,8 @@ func init() {
 		} else {
 			p.Runs = append(p.Runs, schedRun("realtime-two-datatypes-one-client-b2", 2, rt2k, 0), schedRun("realtime-key-with-slash-b2", 2, rtSlash, 0),
 				schedRun("realtime-sync-call-next-to-an-operation-b3", 3, rtSync, 0), schedRun("realtime-join-next-to-an-operation-b2", 2, rtJoin, 0))
+			p.Runs = append(p.Runs, schedRun("realtime-aborted-transaction-next-to-deliveries-b3", 3, rtAbort(nil), 0),
+				schedRun("realtime-aborted-transaction-next-to-deliveries-eager-b3", 3, rtAbort(&spolicy{EagerSpawn: true, FastNotify: true}), 0))
 			p.Runs = append(p.Runs, schedRun("realtime-counter-slow-listener-b2", 2, rtl("counter"), 0), schedRun("realtime-list-slow-listener-b1", 1, rtl("list"), 0))
 			p.Runs = append(p.Runs, schedRun("realtime-list-2-b2", 2, rt(2, "list", true), 0), schedRun("realtime-counter-3-b2", 2, rt(3, "counter", false), 0))
 			p.Runs = append(p.Runs, schedRun("realtime-counter-2ops-listener-b2", 2, rt2("counter"), 0), schedRun("realtime-counter-2ops-eager-spawn-b2", 2, rt2e("counter"), 0),
@@ -1092,12 +1104,15 @@ func init() {
 				mks("sync-counter-txfail-quiet-2u-1s-b3", 3, map[string]interface{}{"type": "counter", "users": 2, "syncs": 1, "pending": 1, "txfail": true, "quiet": true}),
 				mks("sync-list-txfail-2u-2s-b2", 2, map[string]interface{}{"type": "list", "users": 2, "syncs": 2, "pending": 1, "txfail": true}),
 				mks("sync-counter-txfail-quiet-2u-1s-stmt-b2", 2, map[string]interface{}{"type": "counter", "users": 2, "syncs": 1, "pending": 1, "txfail": true, "quiet": true, "stmt": true}),
+				mks("sync-list-1u-2s-log-grows-between-b2", 2, map[string]interface{}{"type": "list", "users": 1, "syncs": 2, "pending": 1, "grow": true}),
 				schedRun("real-client-two-goroutines-call-then-sync-b2", 2, c20TwoSyncs(), 0),
 			}
 		} else {
 			p.BudgetS = 3400
 			p.Runs = []Run{
 				schedRun("real-client-two-goroutines-call-then-sync-b3", 3, c20TwoSyncs(), 0),
+				mks("sync-list-1u-2s-log-grows-between-b3", 3, map[string]interface{}{"type": "list", "users": 1, "syncs": 2, "pending": 1, "grow": true}),
+				mks("sync-list-2u-2s-log-grows-between-b2", 2, map[string]interface{}{"type": "list", "users": 2, "syncs": 2, "pending": 1, "grow": true}),
 				mk("counter-2t-b5", 5, map[string]interface{}{"type": "counter", "threads": 2}),
 				mk("counter-3t-remote-pack-b3", 3, map[string]interface{}{"type": "counter", "threads": 3, "remote": true, "packer": true}),
 				mk("list-3t-remote-pack-b3", 3, map[string]interface{}{"type": "list", "threads": 3, "remote": true, "packer": true}),
